@@ -17,8 +17,6 @@ from harness.common import GENERATED_DIR, REPO, write_if_changed
 GRAMMAR = os.path.join(REPO, 'data', 'grammar.lark')
 OUT = os.path.join(GENERATED_DIR, 'GrammarLadder.lean')
 
-CHAIN = ['expression', 'or_test', 'and_test', 'not_test_', 'comparison', 'expr', 'or_expr', 'xor_expr', 'and_expr',
-	'shift_expr', 'sum', 'term', 'factor', 'primary', 'atom']
 
 
 class GrammarShapeError(Exception):
@@ -137,19 +135,25 @@ def literals_of(rules: dict[str, dict[str, Any]], name: str) -> list[list[str]]:
 
 
 def recognise(rules: dict[str, dict[str, Any]]) -> dict[str, Any]:
+	"""Follows the ladder from `expression` downwards: the next rule is read off each rule's own body (not assumed), so a
+	reordered ladder is emitted as it is and the Lean side (`C02.ladder_eq_python`) decides whether it still is CPython's."""
 	levels: list[dict[str, Any]] = []
 	comp_ops: list[dict[str, Any]] = []
 	shapes: dict[str, Any] = {}
-	for i, name in enumerate(CHAIN):
+	name = 'expression'
+	ident = r'[a-z_][a-z_0-9]*'
+	while True:
+		if len(levels) > 40 or any(lv['rule'] == name for lv in levels):
+			raise GrammarShapeError(f'ladder does not reach `atom` (cycle or too long at {name})')
 		r = rules.get(name)
 		if r is None:
 			raise GrammarShapeError(f'ladder rule {name} missing')
-		nxt = CHAIN[i + 1] if i + 1 < len(CHAIN) else None
 		inlined = '?' in r['mods']
 		alts = r['alts']
 		if name == 'expression':
+			nxt = alts[0][0] if alts and re.fullmatch(ident, alts[0][0]) else None
 			want = [(nxt, None), (f'{nxt} "if" {nxt} "else" expression', 'ternary_test'), ('lambdadef', None)]
-			if alts != want:
+			if nxt is None or alts != want:
 				raise GrammarShapeError(f'expression: unexpected shape {alts}')
 			lam = rules.get('lambdadef')
 			if lam is None or lam['alts'] != [('"lambda" [lambdaparams] ":" expression', None)]:
@@ -157,6 +161,7 @@ def recognise(rules: dict[str, dict[str, Any]]) -> dict[str, Any]:
 			levels.append({'rule': name, 'alias': 'ternary_test', 'inlined': inlined, 'fixity': 'ternary', 'ops': ['if', 'else']})
 			shapes['ternary'] = {'alias': 'ternary_test', 'body': nxt, 'test': nxt, 'orelse': 'expression', 'kw': ['if', 'else']}
 			shapes['lambda'] = {'rule': 'lambdadef', 'params': 'lambdaparams', 'body': 'expression'}
+			name = nxt
 			continue
 		if name == 'primary':
 			want = [('primary "." name', 'getattr'), ('primary "(" [arguments] ")"', 'funccall'), ('primary "[" slices "]"', 'getitem'), ('atom', None)]
@@ -164,6 +169,7 @@ def recognise(rules: dict[str, dict[str, Any]]) -> dict[str, Any]:
 				raise GrammarShapeError(f'primary: unexpected shape {alts}')
 			levels.append({'rule': name, 'alias': None, 'inlined': inlined, 'fixity': 'postfix', 'ops': ['.', '(', '[']})
 			shapes['primary'] = [a for _, a in alts if a]
+			name = 'atom'
 			continue
 		if name == 'atom':
 			if ('group_expr', None) not in alts or rules.get('group_expr', {}).get('alts') != [('"(" expression ")"', None)]:
@@ -172,16 +178,17 @@ def recognise(rules: dict[str, dict[str, Any]]) -> dict[str, Any]:
 				raise GrammarShapeError('group_expr must be a plain (kept) rule')
 			levels.append({'rule': name, 'alias': None, 'inlined': inlined, 'fixity': 'atom', 'ops': []})
 			shapes['atom'] = [a or b for b, a in alts]
-			continue
+			break
 		# single alternative `next`
-		if alts == [(nxt, None)]:
+		if len(alts) == 1 and alts[0][1] is None and re.fullmatch(ident, alts[0][0]):
 			levels.append({'rule': name, 'alias': None, 'inlined': inlined, 'fixity': 'pass', 'ops': []})
+			name = alts[0][0]
 			continue
 		# `next (oprule next)*`
 		if len(alts) == 1 and alts[0][1] is None:
-			m = re.match(rf'^{nxt} \(([a-z_]+) {nxt}\)\*$', alts[0][0])
+			m = re.fullmatch(rf'({ident}) \(({ident}) \1\)\*', alts[0][0])
 			if m:
-				oprule = m.group(1)
+				nxt, oprule = m.group(1), m.group(2)
 				lits = literals_of(rules, oprule)
 				if oprule.startswith('_'):
 					if any(len(t) != 1 or a for t, a in lits):
@@ -192,15 +199,17 @@ def recognise(rules: dict[str, dict[str, Any]]) -> dict[str, Any]:
 					for toks, alias in lits:
 						comp_ops.append({'tokens': toks, 'tree': alias or oprule})
 					levels.append({'rule': name, 'alias': None, 'inlined': inlined, 'fixity': 'chain', 'ops': [' '.join(t) for t, _ in lits], 'oprule': oprule})
+				name = nxt
 				continue
 		# prefix: `oprule self [-> alias] | next`
-		if len(alts) == 2 and alts[1] == (nxt, None):
-			m = re.match(rf'^(_[a-z_]+) {name}$', alts[0][0])
+		if len(alts) == 2 and alts[1][1] is None and re.fullmatch(ident, alts[1][0]):
+			m = re.fullmatch(rf'(_{ident}) {name}', alts[0][0])
 			if m:
 				lits = literals_of(rules, m.group(1))
 				if any(len(t) != 1 or a for t, a in lits):
 					raise GrammarShapeError(f'{m.group(1)}: prefix operator rule with multi-token or aliased alternative')
 				levels.append({'rule': name, 'alias': alts[0][1], 'inlined': inlined, 'fixity': 'prefix', 'ops': [t[0] for t, _ in lits]})
+				name = alts[1][0]
 				continue
 		raise GrammarShapeError(f'ladder rule {name}: shape not recognised: {alts}')
 	return {'levels': levels, 'comp_ops': comp_ops, 'shapes': shapes}
